@@ -15,12 +15,15 @@ import DarsiaModel.Correction
 import DarsiaModel.Corrections
 import DarsiaProofs.Corrections
 import DarsiaProps.C09
+import DarsiaModel.CorrHeap
+import DarsiaProofs.CorrHeap
 namespace Darsia.C10
 open Darsia.Correction
 
 variable {Arr Meta : Type}
 
-/-- copy mode: the input object is untouched, the result is a new object of the same kind with data
+/-- (definitional unfolding of the specification-level model `Corr.callImage`; the operational counterparts are the
+`heap_*` theorems below.) copy mode: the input object is untouched, the result is a new object of the same kind with data
 `f` applied and metadata = input's overridden by the declared update. -/
 theorem copy_mode_partial (c : Corr Arr Meta) (o : Obj Arr Meta) (fresh : Nat) (h : fresh ≠ o.tag) :
     let r := c.callImage o false fresh
@@ -28,7 +31,7 @@ theorem copy_mode_partial (c : Corr Arr Meta) (o : Obj Arr Meta) (fresh : Nat) (
       r.1.md = c.upd o.md (c.g o.md) := by
   simp [Corr.callImage, h]
 
-/-- overwrite mode: the very same object is returned (and is the input afterwards), with the same
+/-- (definitional unfolding, see above.) overwrite mode: the very same object is returned (and is the input afterwards), with the same
 data and metadata as copy mode would have produced. -/
 theorem overwrite_mode_partial (c : Corr Arr Meta) (o : Obj Arr Meta) (fresh : Nat) :
     let r := c.callImage o true fresh
@@ -45,8 +48,9 @@ theorem series_per_slice_partial (c : Corr Arr Meta) (h : c.fSeries = none) (sl 
   · simp [Corr.onData, h]
   · intro t ht ht'; simp
 
-/-- arrays: result = `correct_array` of the array, whatever the overwrite flag. -/
-theorem array_mode_partial (c : Corr Arr Meta) (a : Arr) (ow : Bool) : c.callArray a ow = c.f a := rfl
+/-- (definitional, `rfl`.) arrays: result = `correct_array` of the array, whatever the overwrite flag; the operational
+statement incl. the copy is `heap_array_copy_untouched`. -/
+theorem array_mode_def (c : Corr Arr Meta) (a : Arr) (ow : Bool) : c.callArray a ow = c.f a := rfl
 
 /-- neutral parameters (f = id, no whole-series routine): pixel data unchanged, for single images and series,
 in both modes. -/
@@ -58,7 +62,8 @@ theorem neutral_is_identity_partial (c : Corr Arr Meta) (hf : c.f = id) (hs : c.
     | series sl => simp [Corr.onData, hs, hf]
   cases ow <;> simp [Corr.callImage, this]
 
-/-- the whole-series routine, when declared, takes precedence over the per-slice loop. -/
+/-- (definitional unfolding; no DarSIA class defines `correct_array_series`, so this branch is tied by the toy correction only.)
+the whole-series routine, when declared, takes precedence over the per-slice loop. -/
 theorem series_routine_precedence (c : Corr Arr Meta) (fs : List Arr → List Arr) (h : c.fSeries = some fs)
     (sl : List Arr) : c.onData (.series sl) = .series (fs sl) := by
   simp [Corr.onData, h]
@@ -124,14 +129,14 @@ theorem trans_neutral (active : Bool) (a : TArr) : (transCorrInt active 0 0 a).a
     simp only [transCorrInt, if_true, shift2, sub_zero]
     rw [if_pos ⟨hi0, hi1, hj0, hj1⟩]
 
-theorem trans_inactive_identity (tx ty : Int) (a : TArr) : transCorrInt false tx ty a = a := rfl
+theorem trans_inactive_def (tx ty : Int) (a : TArr) : transCorrInt false tx ty a = a := rfl
 
 /-- an active whole-pixel translation IS the zero-filled shift by (ty, tx) rows / columns. -/
-theorem trans_is_shift (tx ty : Int) (a : TArr) (i j : Int) :
+theorem trans_is_shift_def (tx ty : Int) (a : TArr) (i j : Int) :
     (transCorrInt true tx ty a).arr.get i j = shift2 0 a.arr.n0 a.arr.n1 ty tx a.arr.get i j := rfl
 
 /-- inactive DriftCorrection returns its argument. -/
-theorem drift_inactive_identity (a : TArr) : driftInactive a = a := rfl
+theorem drift_inactive_def (a : TArr) : driftInactive a = a := rfl
 
 /-- RotationCorrection's warp reads only values inside the box (the clip keeps every source index inside),
 for any anchor and any matrix. -/
@@ -260,5 +265,174 @@ example : (typeCorr .u8 ⟨.u16, ⟨1, 2, fun _ j => if j = 0 then 100 else 7⟩
 example : (rotCorr2 ⟨1, 1⟩ (rot2Inv 0 1) ⟨.u8, ⟨3, 3, fun i j => 3 * i + j⟩⟩).arr.get 0 0 = 2 := by decide +kernel
 
 end concrete
+
+/-! ## Round 3: operational workflow on a heap — `correct_array` may write through its argument -/
+
+section heap
+open Darsia.CorrHeap
+
+variable {Meta : Type}
+
+theorem bufOfList_toList (l : List Slice) : (bufOfList l).toList = l := by
+  apply List.ext_getElem
+  · simp [Buf.toList, bufOfList]
+  · intro i h1 h2
+    simp [Buf.toList, bufOfList, List.getD_eq_getElem?_getD, List.getElem?_eq_getElem h2]
+
+/-- copy mode on a SERIES, views taken from the working copy (the code now): the input buffer is untouched for EVERY
+`correct_array`, pure or not. -/
+theorem heap_copy_series_input_untouched (e : Eff) (g : Meta → Meta) (upd : Meta → Meta → Meta) (h : Heap)
+    (o : Obj Meta) (fresh : Nat) (hs : o.series = true) (hv : o.buf < h.next) :
+    (CorrHeap.callImage .work e g upd h o false fresh).1.buf o.buf = h.buf o.buf := by
+  have ha := alloc_spec h (h.buf o.buf)
+  have hne : o.buf ≠ h.next := by omega
+  simp only [CorrHeap.callImage, workOf, dataStep, hs, if_true, Bool.false_eq_true, if_false]
+  have hl := sliceLoop_spec e (h.alloc (h.buf o.buf)).1 (h.alloc (h.buf o.buf)).2
+    (((h.alloc (h.buf o.buf)).1.buf (h.alloc (h.buf o.buf)).2).len)
+  rw [ha.1] at hl ⊢
+  have hn : (sliceLoop e (h.alloc (h.buf o.buf)).1 h.next ((h.alloc (h.buf o.buf)).1.buf h.next).len).1.next = h.next + 1 := by
+    rw [hl.1]; rfl
+  rw [(alloc_spec _ _).2.2 o.buf (by rw [hn]; omega), hl.2.1 o.buf hne, ha.2.2 o.buf hne]
+
+/-- copy mode on a SERIES, views taken from `image.img` itself (the tree before the fix): the input is untouched IF AND
+ONLY IF `correct_array` leaves the contents of every slice it is handed as they are — the real condition hidden behind
+the purity assumption of the `_partial` theorems. -/
+theorem heap_copy_series_original_iff (e : Eff) (g : Meta → Meta) (upd : Meta → Meta → Meta) (h : Heap)
+    (o : Obj Meta) (fresh : Nat) (hs : o.series = true) (hv : o.buf < h.next) :
+    (∀ k, k < (h.buf o.buf).len →
+        ((CorrHeap.callImage .original e g upd h o false fresh).1.buf o.buf).get k = (h.buf o.buf).get k) ↔
+    (∀ k, k < (h.buf o.buf).len → e.after ((h.buf o.buf).get k) = (h.buf o.buf).get k) := by
+  have ha := alloc_spec h (h.buf o.buf)
+  have hne : o.buf ≠ h.next := by omega
+  have h1b : (h.alloc (h.buf o.buf)).1.buf o.buf = h.buf o.buf := ha.2.2 o.buf hne
+  have hl := sliceLoop_spec e (h.alloc (h.buf o.buf)).1 o.buf (((h.alloc (h.buf o.buf)).1.buf o.buf).len)
+  have hn : (sliceLoop e (h.alloc (h.buf o.buf)).1 o.buf ((h.alloc (h.buf o.buf)).1.buf o.buf).len).1.next = h.next + 1 := by
+    rw [hl.1]; rfl
+  have key : ∀ k, ((CorrHeap.callImage .original e g upd h o false fresh).1.buf o.buf).get k
+      = if k < (h.buf o.buf).len then e.after ((h.buf o.buf).get k) else (h.buf o.buf).get k := by
+    intro k
+    simp only [CorrHeap.callImage, workOf, dataStep, hs, if_true, Bool.false_eq_true, if_false]
+    rw [(alloc_spec _ _).2.2 o.buf (by rw [hn]; omega), hl.2.2.2.1 k, h1b]
+  constructor
+  · intro hyp k hk; have := hyp k hk; rw [key k, if_pos hk] at this; exact this
+  · intro hyp k hk; rw [key k, if_pos hk]; exact hyp k hk
+
+/-- an in-place `correct_array` (writes x ↦ x + 1 into its argument) separates the two: with views of the original the
+input series is modified in copy mode. -/
+theorem heap_original_views_leak :
+    let h : Heap := ⟨1, fun _ => bufOfList [[1, 2], [3, 4]]⟩
+    let e : Eff := ⟨fun x => x, some (fun x => x.map (· + 1)), .fresh⟩
+    let o : Obj Nat := ⟨7, 0, true, 0⟩
+    ((CorrHeap.callImage .original e id (fun m _ => m) h o false 8).1.buf 0).toList = [[2, 3], [4, 5]] ∧
+    ((CorrHeap.callImage .work e id (fun m _ => m) h o false 8).1.buf 0).toList = [[1, 2], [3, 4]] := by
+  decide
+
+/-- copy mode on a single image: `correct_array` only ever sees the copy, the input buffer is untouched. -/
+theorem heap_copy_single_input_untouched (src : SliceSrc) (e : Eff) (g : Meta → Meta) (upd : Meta → Meta → Meta)
+    (h : Heap) (o : Obj Meta) (fresh : Nat) (hs : o.series = false) (hv : o.buf < h.next) :
+    (CorrHeap.callImage src e g upd h o false fresh).1.buf o.buf = h.buf o.buf ∧
+    (CorrHeap.callImage src e g upd h o false fresh).2.1.buf ≠ o.buf := by
+  have ha := alloc_spec h (h.buf o.buf)
+  have hne : o.buf ≠ h.next := by omega
+  have hr := runCA_spec e (h.alloc (h.buf o.buf)).1 (h.alloc (h.buf o.buf)).2 0
+  rw [ha.1] at hr
+  simp only [CorrHeap.callImage, workOf, dataStep, hs, Bool.false_eq_true, if_false, ha.1]
+  cases e.ret with
+  | arg => exact ⟨by rw [hr.2.1 o.buf hne, ha.2.2 o.buf hne], by simpa using hne.symm⟩
+  | fresh =>
+    have hn : (runCA e (h.alloc (h.buf o.buf)).1 h.next 0).1.next = h.next + 1 := by rw [hr.1]; rfl
+    refine ⟨?_, ?_⟩
+    · simp only []
+      rw [(alloc_spec _ _).2.2 o.buf (by rw [hn]; omega), hr.2.1 o.buf hne, ha.2.2 o.buf hne]
+    · simp only [(alloc_spec _ _).1, hn]; omega
+
+/-- the data of a corrected series is `np.stack` of `correct_array` on the slices in order — computed from the ORIGINAL
+contents, whichever buffer the views are taken from, in copy and in overwrite mode. -/
+theorem heap_series_per_slice (src : SliceSrc) (e : Eff) (g : Meta → Meta) (upd : Meta → Meta → Meta) (h : Heap)
+    (o : Obj Meta) (ow : Bool) (fresh : Nat) (hs : o.series = true) (hv : o.buf < h.next) :
+    ((CorrHeap.callImage src e g upd h o ow fresh).1.buf (CorrHeap.callImage src e g upd h o ow fresh).2.1.buf).toList
+      = (h.buf o.buf).toList.map e.result := by
+  have ha := alloc_spec h (h.buf o.buf)
+  have hne : o.buf ≠ h.next := by omega
+  have fin : ∀ (h1 : Heap) (b : Nat), h1.buf b = h.buf o.buf →
+      (((sliceLoop e h1 b (h1.buf b).len).1.alloc (bufOfList (sliceLoop e h1 b (h1.buf b).len).2)).1.buf
+        ((sliceLoop e h1 b (h1.buf b).len).1.alloc (bufOfList (sliceLoop e h1 b (h1.buf b).len).2)).2).toList
+        = (h.buf o.buf).toList.map e.result := by
+    intro h1 b hb
+    rw [(alloc_spec _ _).1, (alloc_spec _ _).2.1, bufOfList_toList, (sliceLoop_spec e h1 b _).2.2.2.2, hb]
+    simp [Buf.toList, List.map_map, Function.comp_def]
+  cases ow <;> cases src <;>
+    simp only [CorrHeap.callImage, workOf, dataStep, hs, if_true, Bool.false_eq_true, if_false]
+  · exact fin _ _ (ha.2.2 o.buf hne)
+  · rw [ha.1]; exact fin _ _ ha.2.1
+  · exact fin _ _ rfl
+  · exact fin _ _ rfl
+
+/-- identity of the returned object: overwrite returns the input object itself (and it is the input afterwards), copy
+mode returns a new object and the input OBJECT record (tag, buffer id, metadata) is as before. -/
+theorem heap_object_identity (src : SliceSrc) (e : Eff) (g : Meta → Meta) (upd : Meta → Meta → Meta) (h : Heap)
+    (o : Obj Meta) (fresh : Nat) :
+    (CorrHeap.callImage src e g upd h o true fresh).2.1 = (CorrHeap.callImage src e g upd h o true fresh).2.2 ∧
+    (CorrHeap.callImage src e g upd h o true fresh).2.1.tag = o.tag ∧
+    (CorrHeap.callImage src e g upd h o false fresh).2.2 = o ∧
+    (CorrHeap.callImage src e g upd h o false fresh).2.1.tag = fresh ∧
+    (CorrHeap.callImage src e g upd h o false fresh).2.1.md = upd o.md (g o.md) := by
+  simp [CorrHeap.callImage]
+
+/-- `correction(array)` without overwrite: the array is copied first, so the caller's array is untouched for EVERY
+`correct_array`, and the returned array is never the caller's array. -/
+theorem heap_array_copy_untouched (e : CorrHeap.Eff) (h : CorrHeap.Heap) (b : Nat) (hv : b < h.next) :
+    (CorrHeap.callArray e h b false).1.buf b = h.buf b ∧ (CorrHeap.callArray e h b false).2 ≠ b := by
+  open CorrHeap in
+  have ha := alloc_spec h (h.buf b)
+  have hne : b ≠ h.next := by omega
+  have hr := runCA_spec e (h.alloc (h.buf b)).1 (h.alloc (h.buf b)).2 0
+  rw [ha.1] at hr
+  simp only [callArray, Bool.false_eq_true, if_false, ha.1]
+  cases e.ret with
+  | arg => exact ⟨by rw [hr.2.1 b hne, ha.2.2 b hne], by simpa using hne.symm⟩
+  | fresh =>
+    have hn : (runCA e (h.alloc (h.buf b)).1 h.next 0).1.next = h.next + 1 := by rw [hr.1]; rfl
+    refine ⟨?_, ?_⟩
+    · simp only []
+      rw [(alloc_spec _ _).2.2 b (by rw [hn]; omega), hr.2.1 b hne, ha.2.2 b hne]
+    · simp only [(alloc_spec _ _).1, hn]; omega
+
+/-- with overwrite the correction works on the caller's array itself: an in-place `correct_array` is visible there. -/
+theorem heap_array_overwrite_in_place (e : CorrHeap.Eff) (h : CorrHeap.Heap) (b : Nat) (w : CorrHeap.Slice → CorrHeap.Slice)
+    (hw : e.w = some w) (hr : e.ret = .arg) :
+    (CorrHeap.callArray e h b true).2 = b ∧
+    ((CorrHeap.callArray e h b true).1.buf b).get 0 = w ((h.buf b).get 0) := by
+  open CorrHeap in
+  have hs := runCA_spec e h b 0
+  simp only [callArray, if_true, hr]
+  exact ⟨trivial, by rw [hs.2.2.2.1 0]; simp [Eff.after, hw]⟩
+
+section raising
+open Darsia.Corrections
+
+/-- guard of the raising path: where every value is in skimage's accepted range the conversion succeeds and is
+`typeCorr`; otherwise it is a ValueError (never a silently clipped result). -/
+theorem type_guard (t : DT) (a : TArr) :
+    (a.arr.allIn (convOk a.dt t) = true → typeCorrE t a = .ok (typeCorr t a)) ∧
+    (a.arr.allIn (convOk a.dt t) = false → typeCorrE t a = .error .value) := by
+  constructor <;> intro h <;> simp [typeCorrE, h]
+
+/-- integer sources and float targets never raise. -/
+theorem type_never_raises_from_int (t : DT) (a : TArr) (h : a.dt ≠ .f64 ∨ t = .f64) :
+    typeCorrE t a = .ok (typeCorr t a) := by
+  have : a.arr.allIn (convOk a.dt t) = true := by
+    simp only [Arr2.allIn, List.all_eq_true]
+    intro i _ j _
+    rcases h with h | h
+    · cases hd : a.dt <;> cases t <;> simp_all [convOk]
+    · subst h; cases a.dt <;> simp [convOk]
+  simp [typeCorrE, this]
+
+example : (Arr2.allIn ⟨1, 1, fun _ _ => 3/2⟩ (convOk .f64 .u8)) = false := by decide +kernel
+
+end raising
+
+end heap
 
 end Darsia.C10
